@@ -43,9 +43,11 @@ const (
 	c36Trunc    = "truncated" // truncated msgpack body
 	c36BadField = "badfield"  // msgpack map whose Port is a string
 	c36Silence  = "silence"
+	c36NoAddr   = "noaddr" // well-formed record that carries a name and tags but neither address nor port
+	c36NoPort   = "noport" // well-formed record with the node's address and no port
 )
 
-var c36Kinds = []string{c36Own, c36Own, c36Own16, c36Other, c36Other, c36Port, c36Nil, c36Empty, c36Wrong, c36Trunc, c36BadField, c36Silence}
+var c36Kinds = []string{c36Own, c36Own, c36Own16, c36Other, c36Other, c36Port, c36Nil, c36Empty, c36Wrong, c36Trunc, c36BadField, c36NoAddr, c36NoPort, c36Silence}
 
 type c36Reply struct {
 	Kind string
@@ -72,7 +74,7 @@ func c36Gen(rng *rand.Rand) c36Case {
 		k := c36Kinds[rng.Intn(len(c36Kinds))]
 		switch profile {
 		case 0: // only votes, to sit near the majority boundary
-			k = []string{c36Own, c36Other, c36Own16, c36Nil}[rng.Intn(4)]
+			k = []string{c36Own, c36Other, c36Own16, c36Nil, c36Own, c36NoAddr, c36NoPort}[rng.Intn(7)]
 		case 1: // nothing valid at all
 			k = []string{c36Empty, c36Wrong, c36Trunc, c36BadField, c36Silence}[rng.Intn(5)]
 		}
@@ -124,6 +126,10 @@ func c36Payload(kind string, cut int, ownIP string, ownPort uint16) []byte {
 		return append([]byte{wire.KeyResponse}, body...)
 	case c36Trunc:
 		return append([]byte{wire.ConflictResponse}, body[:cut%len(body)]...)
+	case c36NoAddr:
+		return append([]byte{wire.ConflictResponse}, wire.EncodeBody(map[string]any{"Name": "dup", "Tags": map[string]string{"role": "x"}, "Status": 1})...)
+	case c36NoPort:
+		return append([]byte{wire.ConflictResponse}, wire.EncodeBody(map[string]any{"Name": "dup", "Addr": []byte(mem.Addr), "Status": 1})...)
 	case c36BadField:
 		return append([]byte{wire.ConflictResponse}, wire.EncodeBody(map[string]any{"Name": "dup", "Addr": []byte(mem.Addr), "Port": "seven"})...)
 	}
@@ -359,7 +365,7 @@ func TestC36(t *testing.T) {
 	if r.Counter("node_log_tally_equals_reference") < int64(n)/2 && r.Violations() == 0 {
 		r.Inconclusive("the node's own vote tally (log line) matched the scripted replies in fewer than half of the cases: replies may not be arriving")
 	}
-	r.Finish("NotifyConflict on a real node (name 'dup', conflict resolution enabled) with 1-6 puppet members answering the _serf_conflict query per script: vote for the node's address+port (4- and 16-byte address form), other address, same address other port, nil member, empty payload, wrong type byte, truncated msgpack, wrongly typed field, silence; optional second differing reply from the same responder; random send order and virtual-time gaps; State() read after the query timeout; every case is non-trivial (the resolution ran), distinct by (puppets, reply kinds per puppet)",
+	r.Finish("NotifyConflict on a real node (name 'dup', conflict resolution enabled) with 1-6 puppet members answering the _serf_conflict query per script: vote for the node's address+port (4- and 16-byte address form), other address, same address other port, nil member, empty payload, wrong type byte, truncated msgpack, wrongly typed field, well-formed records without address/port fields, silence; optional second differing reply from the same responder; random send order and virtual-time gaps; State() read after the query timeout; every case is non-trivial (the resolution ran), distinct by (puppets, reply kinds per puppet)",
 		r.N(600, 5000),
 		"only the first reply per responder name counts (the query layer de-duplicates by the From field)",
 		"a nil member is a valid reply that does not match (it is what a real node answers when it does not know the name)",
